@@ -64,6 +64,7 @@ func storeSinks(sts []*ssa.Store, note string) []ir.Sink {
 }
 
 func runC38(c *core.Ctx) {
+	checkCleanResetsBase(c, "C38.clean")
 	checkContainTxAsksTheStore(c)
 	pk := c.P.Pkgs[ir.PkgPath(pkIncr)]
 	if pk == nil || pk.SSA == nil {
